@@ -22,9 +22,11 @@
    changes only that is not flagged:
      PoolOrder    the pool need not be one global FIFO and its threads are anonymous: a task may be dequeued
                   when no task of the same client is queued ahead of it (per-client order is what the statement
-                  demands; per-client queues or key-affine workers are explained as well), as long as dequeued
-                  and running tasks fit into the configured pool size.  The `w` of a record is a slot the
-                  harness hands out for the duration of one handler call.
+                  demands; per-client queues, key-affine workers and one pool task per batch of a client's
+                  messages are explained as well); only a pool of one thread cannot let a later task overtake.
+                  The `w` of a record is a slot the harness hands out for the duration of one handler call.
+     FlushAtShutdown  between noticing the shutdown signal (Loop_Shutdown) and the return of run() the loop may
+                  still flush queued messages (a graceful shutdown); it may not dispatch anything any more.
      FlushOrder   queued outgoing messages may be flushed in any order (the statement demands who gets a
                   message and how often, not the order among different messages)
      LateRemoval  after a disconnect was dispatched for a stream the loop may take the stream out of its table
@@ -128,8 +130,8 @@ IsW(x) == x \in Workers
 \* ---- the pool (leniency PoolOrder) -------------------------------------------------------------
 \* The handler of task t can start now when t was dequeued earlier (limbo) or is still queued; in the latter
 \* case every task of the same client queued ahead of it was dequeued before it (per-client FIFO) by threads
-\* that have not started their handler yet.  All of that must fit into the pool: threads running a handler +
-\* threads holding a dequeued task <= pool size.
+\* that have not started their handler yet (or that run several tasks of one client as one batch).  A pool of
+\* ONE thread cannot hold a task back while it runs another one: there nothing may overtake.
 Same(t, r) == t.k = r.k /\ t.c = r.c /\ t.m = r.m
 QPos(r) == {p \in DOMAIN q : Same(q[p], r)}
 Ahead(r) == IF QPos(r) = {} THEN {}
@@ -141,7 +143,7 @@ LimboAfter(r) == (limbo \cup {q[p] : p \in Ahead(r)}) \ {TaskOf(r)}
 StartPre(r) ==
   /\ IsW(r.w) /\ wst[r.w] = "idle" /\ r.sc = r.c /\ IsC(r.c)
   /\ ((\E t \in limbo : Same(t, r)) \/ QPos(r) # {})
-  /\ Cardinality(LimboAfter(r)) + Running + 1 <= nwk
+  /\ (nwk >= 2 \/ LimboAfter(r) = {})
   /\ ("InvocationInversion" \in Dev \/ Len(iseq[r.c]) + 1 = TaskOf(r).n)
 QAfter(r) == LET drop == Ahead(r) \cup QPos(r) IN
              SelectSeq([p \in DOMAIN q |-> [t |-> q[p], keep |-> p \notin drop]], LAMBDA x : x.keep)
@@ -154,6 +156,8 @@ StartEff(r) ==
 
 \* ---- one guard and one effect per record kind ---------------------------------------------------
 LoopOK == lpc # "done"
+\* flushing is possible until run() has returned (record Exit, which sets shut to "exited")
+FlushOK == shut # "exited"
 UNL == UNCHANGED loopvars
 
 QuiescentNow ==
@@ -203,15 +207,15 @@ Guard ==
                                 /\ (cst[e.c] # "open" \/ e.n = 1)
     [] e.ev = "Loop_Remove"  -> e.c \in rmp
     \* (leniencies FlushOrder and LateRemoval, see the head of the module)
-    [] e.ev = "Loop_FlushUni" -> /\ LoopOK /\ (\E p \in DOMAIN outgoing : outgoing[p] = MsgOf(e)) /\ e.k = "uni"
+    [] e.ev = "Loop_FlushUni" -> /\ FlushOK /\ (\E p \in DOMAIN outgoing : outgoing[p] = MsgOf(e)) /\ e.k = "uni"
                                  /\ e.c = e.to /\ Len(e.lst) <= 1
                                  /\ \/ ToSet(e.lst) = (IF e.to \in streams THEN {e.to} ELSE {})
                                     \/ (e.to \in rmp /\ ToSet(e.lst) = {e.to})
-    [] e.ev = "Loop_FlushBc"  -> /\ LoopOK /\ (\E p \in DOMAIN outgoing : outgoing[p] = MsgOf(e)) /\ e.k = "bc"
+    [] e.ev = "Loop_FlushBc"  -> /\ FlushOK /\ (\E p \in DOMAIN outgoing : outgoing[p] = MsgOf(e)) /\ e.k = "bc"
                                  /\ streams \subseteq ToSet(e.lst) /\ ToSet(e.lst) \subseteq streams \cup rmp
                                  /\ Len(e.lst) = Cardinality(ToSet(e.lst))
     [] e.ev = "Loop_Shutdown" -> LoopOK /\ lpc = "top" /\ shut = "sent"
-    [] e.ev = "Exit"       -> lpc = "done"
+    [] e.ev = "Exit"       -> lpc = "done" /\ shut = "seen"
     \* e.n: clients that vanished, were written to afterwards (which makes the kernel report the dead socket)
     \* and were still not disconnected when the harness gave up waiting (10 s) before the shutdown
     [] e.ev = "End"        -> /\ lpc = "done" /\ e.m = 0 /\ e.n = 0 /\ q = <<>> /\ limbo = {} /\ WorkersIdle
@@ -269,7 +273,11 @@ Effect ==
                                  /\ UNCHANGED <<cst, sent, pings, net, pending, incoming, streams, keys, cur, q, wst, wtask,
                                                 outgoing, ext, sentTo, rxn, dseq, iseq, admitted, tmo, flog>>
                                  /\ UNCHANGED <<rmp, qs>>
-    [] e.ev \in {"Exit", "End"} -> UNCHANGED vars /\ UNCHANGED <<rmp, qs>>
+    [] e.ev = "Exit" -> /\ shut' = "exited"
+                        /\ UNCHANGED <<cst, sent, pings, net, pending, incoming, streams, lpc, keys, cur, q, wst, wtask,
+                                       outgoing, ext, sentTo, rxn, dseq, iseq, admitted, tmo, flog>>
+                        /\ UNCHANGED <<rmp, qs>>
+    [] e.ev = "End" -> UNCHANGED vars /\ UNCHANGED <<rmp, qs>>
 
 \* a false property was caused by the record before this one
 Reject(why, names) ==
